@@ -433,6 +433,34 @@ def add_tail(R, c, g, W, wire_of, typ, obf_after, tail):
         raise symex.HarnessError(tail)
 
 
+QUEUED = ('stall1', 'stall2', 'slow2', 'fail1')
+
+
+def add_queued(R, c, g, W, wire_of, typ, queued):
+    """pre-condition of the end of an established connection: one or two messages were handed to queue_message() (what the
+    transfer manager and the distributed network do) and their writes are still in flight: stalled (write time-out after 10 s),
+    slow (done after 2 s) or failing (write error after 1 s).  Payloads symbolic."""
+    if queued == 'none':
+        return
+    n, mode, delay = {'stall1': (1, 'hang', 0), 'stall2': (2, 'hang', 0), 'slow2': (2, 'slow', 2.0), 'fail1': (1, 'slow_reset', 1.0)}[queued]
+    msgs = [g.raw(f'queued{i}.raw', 6) if typ == 'F' else out_message(g, typ, f'queued{i}') for i in range(n)]
+    g.commit()
+
+    def ready():
+        w = wire_of()
+        return w is not None and w.owner is not None and w.owner.connection_state != PeerConnectionState.AWAITING_INIT
+
+    def run():
+        w = wire_of()
+        if not w.open or w.owner.state != ConnectionState.CONNECTED:
+            return
+        w.writer.drain_mode, w.writer.drain_delay = mode, delay
+        for m in msgs:
+            R.loop.call(w.owner.queue_message, m)
+        c.reach('messages_queued')
+    R.script.append((ready, run))
+
+
 def add_injection(R, c, g, W, inject, target, typ):
     """target(): the PeerConnection under test or None (then the path is pruned: nothing to act on yet)"""
     loop = R.loop
@@ -481,7 +509,7 @@ TAILS = ('none', 'frames_eof', 'frames_batch', 'handler_disconnects', 'eof', 'eo
 INJECTS = ('none', 'disconnect', 'double', 'net_disconnect', 'send', 'remote_eof', 'remote_reset')
 
 
-def h_incoming(c, port, first, tail='none', inject='none', n_any=0, slow='none', pace='now'):
+def h_incoming(c, port, first, tail='none', inject='none', n_any=0, slow='none', pace='now', queued='none'):
     obf_port = port == 'obf'
     sig = ['incoming', port, first if not first.startswith('any') else 'any', tail]
     loop = VLoop()
@@ -622,9 +650,10 @@ def h_incoming(c, port, first, tail='none', inject='none', n_any=0, slow='none',
                         c.reach('pierce_completed_attempt')
             R.script.append(judge)
             if typ is not None and first in FIRST_VALID:
+                add_queued(R, c, g, W, lambda: wire, typ, queued)
                 add_tail(R, c, g, W, lambda: wire, typ, obf_after, tail)
-            elif tail != 'none':
-                raise symex.HarnessError('tails need a valid first frame')
+            elif tail != 'none' or queued != 'none':
+                raise symex.HarnessError('tails / queued messages need a valid first frame')
             g.commit()
             R.go(loop.time() + HORIZON)
             if tail in ('frames_eof',) and inject == 'none':
@@ -644,7 +673,8 @@ CONNECTS = ('ok', 'ok_slow', 'refused', 'refused_slow', 'hang')
 OUT_INJECTS = INJECTS + ('cancel', 'pierce')
 
 
-def h_outgoing(c, via, mode='fallback', typ='P', connect='ok', initsend='ok', tail='none', inject='none', slow='none', port='fixed'):
+def h_outgoing(c, via, mode='fallback', typ='P', connect='ok', initsend='ok', tail='none', inject='none', slow='none', port='fixed',
+               queued='none'):
     sig = ['outgoing', via, mode, connect, initsend, tail]
     loop = VLoop()
     g = codec.Gen(c)
@@ -706,6 +736,10 @@ def h_outgoing(c, via, mode='fallback', typ='P', connect='ok', initsend='ok', ta
             else:
                 add_injection(R, c, g, W, inject, target, typ)
             # ---- after the init message was sent: the established connection ends -----------------------------------
+            if queued != 'none':
+                if initsend != 'ok':
+                    raise symex.HarnessError('queued messages need an established connection')
+                add_queued(R, c, g, W, out_wire, typ, queued)
             if tail != 'none':
                 if initsend != 'ok':
                     raise symex.HarnessError('tails need an established connection')
@@ -898,7 +932,8 @@ META = {
     'discriminants': ['listening port (plain / obfuscated)', 'first-frame kind (15) and body length', 'TCP segmentation of the first frame (2)',
                       'pace of the first frame: at once / after 20 s of silence / 5 s of silence then 3 pieces 5 s apart (the accepted, not yet '
                       'initialised socket is observed at every idle moment and hit by every injected action in between)',
-                      'end kind of an established connection (15)', 'kind of the injected concurrent action (7 + cancel + pierce) and the loop step '
+                      'end kind of an established connection (15)', 'messages pending in queue_message() tasks when it ends: none / 1 or 2 with '
+                      'stalled writes / 2 with slow writes / 1 whose write fails (payload symbolic)', 'kind of the injected concurrent action (7 + cancel + pierce) and the loop step '
                       'at which it happens (every step of the scenario)', 'way of opening (direct plain / obfuscated with fixed or symbolic port / address lookup / server request), '
                       'connect mode (fallback / race), typ (P/D/F)', 'outcome of open_connection (ok, ok after 1 s, refused, refused after 1 s, never)',
                       'outcome of the init-message write (ok, fails, stalls)', 'server: connect outcome, end kind (7), outcome of the reconnect'],
@@ -952,7 +987,7 @@ def jobs(tier):
             add('incoming', h_incoming, {'port': port, 'first': first}, req, 10)
 
     # ---- H1b: ways an accepted connection ends x injected concurrent action --------------------------------------------
-    def inc(port, first, t, i, slow='none'):
+    def inc(port, first, t, i, slow='none', queued='none'):
         typ = 'P' if first in ('init_ticket8', 'pierce_match') else first[-1] if first in FIRST_VALID else None
         if t != 'none' and first not in FIRST_VALID:
             return
@@ -963,6 +998,9 @@ def jobs(tier):
         params = {'port': port, 'first': first, 'tail': t, 'inject': i}
         if slow != 'none':
             params['slow'] = slow
+        if queued != 'none':
+            params['queued'] = queued
+            req = req + ['messages_queued']
         add('incoming', h_incoming, params, req, 300 if i == 'double' else 60 if i != 'none' else 2)
     def paced(port, first, pace, i, n_any=None):
         params = {'port': port, 'first': first, 'inject': i, 'pace': pace}
@@ -993,6 +1031,29 @@ def jobs(tier):
                 for n in (5, 13):
                     for i in ('none', 'net_disconnect', 'remote_eof'):
                         paced(port, 'any', pace, i, n)
+    QT = ('local', 'local_twice', 'net_disconnect', 'eof', 'reset', 'send_reset', 'local_close_hang', 'none')
+    QI = ('none', 'disconnect', 'double', 'net_disconnect', 'remote_eof', 'remote_reset', 'send')
+    if quick:
+        for q in QUEUED:
+            for i in ('none', 'disconnect', 'remote_eof', 'remote_reset', 'net_disconnect'):
+                inc('plain', 'init_P', 'local', i, queued=q)
+        for q in ('stall2', 'fail1'):
+            for t in ('net_disconnect', 'eof', 'local_twice'):
+                inc('plain', 'init_P', t, 'disconnect', queued=q)
+            inc('plain', 'init_D', 'local', 'remote_eof', queued=q)
+            inc('obf', 'init_P', 'local', 'disconnect', queued=q)
+            inc('plain', 'init_F', 'local', 'remote_reset', queued=q)
+        inc('plain', 'init_P', 'local', 'disconnect', 'states', queued='stall1')
+    else:
+        for q in QUEUED:
+            for first in ('init_P', 'init_D', 'init_F'):
+                for t in QT:
+                    for i in QI:
+                        inc('plain', first, t, i, queued=q)
+                    inc('plain', first, t, 'disconnect', 'states', queued=q)
+            for t in ('local', 'net_disconnect', 'eof'):
+                for i in ('none', 'disconnect', 'remote_reset'):
+                    inc('obf', 'init_P', t, i, queued=q)
     if quick:
         for t in TAILS:
             for i in ('none', 'disconnect', 'send'):
@@ -1032,7 +1093,7 @@ def jobs(tier):
                     inc(port, first, 'none', 'disconnect', 'states')
 
     # ---- H2: outgoing --------------------------------------------------------------------------------------------------
-    def outg(via, mode, typ, connect, initsend, t, inj, slow='none', port='fixed'):
+    def outg(via, mode, typ, connect, initsend, t, inj, slow='none', port='fixed', queued='none'):
         if via == 'request' and (mode == 'race' or inj in ('cancel', 'pierce')):
             return
         if via in WIRE_VIAS and (_frame_tail(t) or t == 'eof_mid_frame'):
@@ -1047,9 +1108,29 @@ def jobs(tier):
         if port != 'fixed':
             params['port'] = port
         req = core + ['outgoing_connection_created']
+        if queued != 'none':
+            if connect != 'ok' or initsend != 'ok':
+                return
+            params['queued'] = queued
+            req = req + ['messages_queued']
         if via in WIRE_VIAS or port == 'sym':
             req = req + ['connect_argument_rejected']      # the solver found an address the real open_connection refuses to take
         add('outgoing', h_outgoing, params, req, 300 if inj == 'double' else 60 if inj != 'none' else 2)
+    if quick:
+        for q in QUEUED:
+            for inj in ('none', 'disconnect', 'remote_reset'):
+                outg('direct_plain', 'fallback', 'P', 'ok', 'ok', 'local', inj, queued=q)
+        outg('direct_obf', 'fallback', 'D', 'ok', 'ok', 'net_disconnect', 'remote_eof', queued='stall2')
+        outg('request', 'fallback', 'P', 'ok', 'ok', 'local', 'disconnect', queued='fail1')
+    else:
+        for q in QUEUED:
+            for via in VIAS:
+                for typ in ('P', 'D', 'F'):
+                    for t in QT:
+                        for inj in QI:
+                            if via != 'direct_plain' and (inj in ('double', 'send') or typ == 'F'):
+                                continue
+                            outg(via, 'fallback', typ, 'ok', 'ok', t, inj, queued=q)
     if quick:
         for connect in CONNECTS:
             for inj in ('none', 'cancel', 'disconnect', 'net_disconnect'):
